@@ -79,21 +79,8 @@ voting stage. -/
 theorem vote_enabled (c : Committee) (s : Node) (b : Block)
     (hp : s.panic = none) (hr : b.round = s.round) (hlv : s.lastVoted < b.round)
     (h2 : safetyRule2 b = some true) :
-    Out.voted b ∈ (voteStage c s true b).hist := by
-  unfold voteStage
-  simp only [hp, Bool.not_true, Option.isSome_none, Bool.or_self, Bool.false_eq_true, if_false]
-  have hne : (b.round != s.round) = false := by simp [hr]
-  simp only [hne, Bool.false_eq_true, if_false]
-  have hmv : s.makeVote b = (({ s with lastVoted := max s.lastVoted b.round }).emit (.voted b),
-      some { hash := b.digest, round := b.round, author := s.name, sig := ⟨s.name, .vote b.digest b.round⟩ }) := by
-    unfold makeVote
-    simp only [h2]
-    have : (decide (b.round > s.lastVoted) && true) = true := by simp; omega
-    simp only [this, if_true]
-  rw [hmv]
-  simp only
-  apply ext_hist_mem (ext_sendVote c _ _)
-  simp
+    Out.voted b ∈ (voteStage c s true b).hist :=
+  voteStage_votes c s b hp hr hlv h2
 
 /-- (L6) View synchronisation: whoever receives a valid TC of round `r`, or a proposal whose QC is
 of round `r`, is in a round above `r` afterwards. -/
@@ -125,6 +112,23 @@ theorem consecutive_chain_commits (c : Committee) (name : Nat) (hd : Deploy c na
     b0.round ≤ ((run c (init c name) es).handleProposal c b).lastCommitted :=
   handleProposal_commits c _ b b1 b0 (reachable_inv4 c name hd rfl es) hl hv hpay hp1 hp0 h2
 
+/-- (L9) The good case of voting, end to end through `handle_proposal`: in every reachable state, a
+node that has not moved past round `b.round` and has neither voted nor timed out in it, on receiving
+from that round's leader a verified block `b` that directly extends its QC, whose batches it holds
+and whose parent and grandparent it has stored, signs a vote for `b` (which, by
+`C03.wire_vote_is_for_voted_block`, goes to the leader of the next round). -/
+theorem honest_proposal_is_voted (c : Committee) (name : Nat) (hd : Deploy c name) (es : List Event)
+    (b b1 b0 : Block)
+    (hl : b.author = c.leader b.round) (hv : b.verify c = .ok ())
+    (hpay : ∀ d ∈ b.payload, d ∈ (run c (init c name) es).avail)
+    (hp1 : (getParent c (run c (init c name) es) b).2 = .found b1)
+    (hp0 : (getParent c (run c (init c name) es) b1).2 = .found b0)
+    (htc : b.tc = none) (hdir : b.qc.round + 1 = b.round)
+    (hround : (run c (init c name) es).round ≤ b.round)
+    (hlv : (run c (init c name) es).lastVoted < b.round) :
+    Out.voted b ∈ ((run c (init c name) es).handleProposal c b).hist :=
+  handleProposal_votes c _ b b1 b0 (reachable_inv4 c name hd rfl es) hl hv hpay hp1 hp0 htc hdir hround hlv
+
 /-- (L8) Faulty leaders delay progress only boundedly: whatever set of `m < n` authorities is
 crashed or Byzantine, it leads at most `m` rounds in a row — among any `m + 1` consecutive rounds at
 least one is led by an authority outside the set (rotation over the sorted keys is a bijection on
@@ -133,6 +137,22 @@ theorem faulty_leaders_lead_at_most_m_rounds_in_a_row (c : Committee) (hw : c.WF
     (faulty : List Nat) (hm : faulty.length < c.keys.length) (r0 : Nat) :
     ∃ i, i ≤ faulty.length ∧ c.leader (r0 + i) ∉ faulty :=
   leader_outside_within c hw h faulty hm r0
+
+/-- (L10) With `n ≥ 3m + 1` authorities of which any `m` are crashed or Byzantine, every window of
+`n` consecutive rounds contains THREE consecutive rounds led by authorities outside the faulty set —
+exactly what a 2-chain commit needs (L9: the first two blocks get voted, L7: the third one commits
+the first).  So after the network has stabilised a commit is at most one leader rotation away. -/
+theorem three_consecutive_nonfaulty_leaders (c : Committee) (hw : c.WF) (h : c.keys ≠ [])
+    (faulty : List Nat) (hm : 3 * faulty.length < c.keys.length) (r0 : Nat) :
+    ∃ i, i < c.keys.length ∧ c.leader (r0 + i) ∉ faulty ∧ c.leader (r0 + i + 1) ∉ faulty ∧
+      c.leader (r0 + i + 2) ∉ faulty :=
+  three_consecutive_outside c hw h faulty hm r0
+
+/-- Non-vacuity of L8/L10: seven authorities, 2 and 5 faulty: rounds led by 6, 7, 1 are a clean triple. -/
+example :
+    let c : Committee := ⟨[(1, 1), (2, 1), (3, 1), (4, 1), (5, 1), (6, 1), (7, 1)]⟩
+    c.leader 5 = 6 ∧ c.leader 6 = 7 ∧ c.leader 7 = 1 ∧ 3 * [2, 5].length < c.keys.length := by
+  decide
 
 /-- Non-vacuity / good case on one node: blocks of three consecutive rounds commit the first. -/
 example :
